@@ -1,4 +1,6 @@
 """C01 -- fills honour both limits; one price per round, set by the resting (earlier-accepted) side."""
+from hypothesis import strategies as st
+
 from ..market_machine import market_cases
 from ._market_common import frac, fuzz_part, make_check
 
@@ -30,6 +32,23 @@ PARTS = {"machine": {"check": make_check({"C01"}, _nt), "strategy": _strategy,
                      "budget": {"quick": 3000, "thorough": 60000}},
          "deep": {"check": make_check({"C01"}, _nt), "strategy": _deep_strategy, "budget": {"quick": 2000, "thorough": 40000}}}
 
+@st.composite
+def _bigsweep_cases(draw, tier):
+    """one round that matches MORE pairs than any internal chunk size (100): n one-lot orders at n distinct prices entered while no
+    round runs, then one order that sweeps all of them -- the whole round still carries one price"""
+    n = draw(st.sampled_from([101, 120, 150, 205]))
+    k = draw(st.sampled_from([1, 7, 11, 13]))          # arrival order: i*k mod n
+    sweep_buy = draw(st.booleans())
+    ops = []
+    for i in range(n):
+        lvl = (i * k) % n
+        ops.append(["L", not sweep_buy, 100.0 + lvl if sweep_buy else 400.0 - lvl, 1, None, 1 + i % 3])
+    ops.append(["L", sweep_buy, 100.0 + n + 5 if sweep_buy else 400.0 - n - 5, n + draw(st.integers(0, 3)), None, 0])
+    ops.append(["X"])
+    return {"tick": 1.0, "p0": 250.0, "continuous": False, "running0": True, "ops": ops}
+
+
+PARTS["bigsweep"] = {"check": make_check({"C01"}, lambda f: bool(f.get("multi_fill_round"))), "strategy": _bigsweep_cases, "budget": {"quick": 64, "thorough": 640}}
 PARTS["fuzz"] = fuzz_part("C01", {"C01"}, _nt)
 
 
